@@ -92,6 +92,10 @@ type nativeResult struct {
 }
 
 // runNative runs the given cases of one package natively; returns one result per case.
+// nativeTimeout bounds one native `go test` run; best-effort replays of schedule-dependent
+// counterexamples (which may simply hang natively when the violation is a deadlock) use a short one.
+var nativeTimeout = "300s"
+
 func runNative(g Group, pkgName string, harnesses []string, cases []nativeCase, race bool) ([]nativeResult, string, error) {
 	work, err := os.MkdirTemp(filepath.Join(verifDir, "out"), "native-")
 	if err != nil {
@@ -149,7 +153,7 @@ func runNative(g Group, pkgName string, harnesses []string, cases []nativeCase, 
 	}
 	cp := filepath.Join(work, "cases.txt")
 	os.WriteFile(cp, []byte(cl.String()), 0o644)
-	args := []string{"test", "-v", "-vet=off", "-count=1", "-run", "^TestVerifNative$", "-overlay", ovp, "-timeout", "300s"}
+	args := []string{"test", "-v", "-vet=off", "-count=1", "-run", "^TestVerifNative$", "-overlay", ovp, "-timeout", nativeTimeout}
 	if race {
 		args = append(args, "-race")
 	}
@@ -602,6 +606,7 @@ func cmdCheck(args []string) int {
 			// schedule-dependent: the controller-style harness is often deterministic natively too; best effort
 			if rf.Schedule && !stubbed[i] && v.Kind != "unsat-obligation" && nativeTries < 4 && os.Getenv("SYMGO_NO_NATIVE") == "" {
 				nativeTries++
+				nativeTimeout = "60s"
 				rs, cmdline, err := runNative(mergeGroupFiles(groups, g.Pkg), pkgs[g.Pkg].Pkg.Name(), harnessNames[g.Pkg], []nativeCase{{v.Harness, v.Model, violParams[i]}}, v.Kind == "race")
 				rf.NativeCmd = cmdline
 				if err == nil {
@@ -612,7 +617,11 @@ func cmdCheck(args []string) int {
 				} else if v.Kind == "race" && strings.Contains(err.Error(), "DATA RACE") {
 					rf.Native = "DATA RACE reported by go test -race"
 					rf.Confirmed = "native"
+				} else if strings.Contains(err.Error(), "test timed out") {
+					rf.Native = "native attempt did not terminate within " + nativeTimeout
+					nativeTries = 4 // a hanging replay (deadlock counterexample): no further best-effort attempts
 				}
+				nativeTimeout = "300s"
 			}
 		}
 		jb, _ := json.MarshalIndent(rf, "", " ")
